@@ -36,3 +36,22 @@ def tier2(tier, rng):
     for (h, w) in [(1, 1), (1, 2), (2, 1)]:
         for g in L.all_grids(h, w, list(range(0, h * w + 1))):
             yield {"h": h, "w": w, "grid": g}
+
+
+def big(tier, rng):
+    """long single-row / single-column boards cut into blocks with two-digit sizes (neighbouring blocks differ)"""
+    th = tier == "thorough"
+    for n in (L.LONG if th else L.sample(rng, L.LONG, 3) + [23]):
+        a = rng.randint(10, min(13, n - 1))
+        rest = n - a
+        sizes = [a, rest] if rest != a else [a, 1, rest - 1]
+        if len(sizes) == 3 and (sizes[2] == 1 or sizes[2] == 0):
+            continue
+        row, ans = [], []
+        for s_ in sizes:
+            blk = [0] * s_
+            blk[rng.randrange(s_)] = s_
+            row += blk
+            ans += [s_] * s_
+        yield {"h": 1, "w": n, "grid": [row], "planted": [ans]}
+        yield {"h": n, "w": 1, "grid": [[v] for v in row], "planted": [ans]}
